@@ -155,6 +155,19 @@ class EnumerateIt(It):
         r = [BV64(self.n), x]; self.n += 1; return r
 
 
+class TakeIt(It):
+    """take(n) / skip(n) / step over a prefix: counts are concretised on this path"""
+    def __init__(self, inner, n, mode): self.inner, self.n, self.mode, self.i = inner, n, mode, 0
+    def next(self, M):
+        if self.mode == 'take':
+            if self.i >= self.n: return None
+            self.i += 1; return self.inner.next(M)
+        while self.i < self.n:
+            self.i += 1
+            if self.inner.next(M) is None: return None
+        return self.inner.next(M)
+
+
 class ZipIt(It):
     def __init__(self, a, b): self.a, self.b = a, b
     def next(self, M):
@@ -261,6 +274,9 @@ def m_iter_filter(M, a, c, fr): return FilterIt(to_iter(M, a[0]), a[1])
 def m_iter_closure_adaptor(M, a, c, fr):
     mode = re.search(r'as Iterator>::(map_while|filter_map|take_while|skip_while)', c).group(1)
     return MapWhileIt(to_iter(M, a[0]), a[1], mode)
+def m_iter_take_skip(M, a, c, fr):
+    mode = 'take' if '>::take' in c else 'skip'
+    return TakeIt(to_iter(M, a[0]), M.concrete(a[1], 'iter.' + mode), mode)
 def m_iter_chain(M, a, c, fr): return ChainIt(to_iter(M, a[0]), to_iter(M, a[1]))
 def m_iter_enumerate(M, a, c, fr): return EnumerateIt(to_iter(M, a[0]))
 def m_iter_cloned(M, a, c, fr): return ClonedIt(to_iter(M, a[0]))
@@ -1101,6 +1117,7 @@ MODELS = [
     (r'core::slice::<impl \[.*\]>::iter(_mut)?', m_slice_iter),
     (r'<.* as Iterator>::next', m_iter_next),
     (r'<.* as Iterator>::map::<.*>', m_iter_map),
+    (r'<.* as Iterator>::(take|skip)', m_iter_take_skip),
     (r'<.* as Iterator>::filter::<.*>', m_iter_filter), (r'<.* as Iterator>::(map_while|filter_map|take_while|skip_while)::<.*>', m_iter_closure_adaptor),
     (r'<.* as Iterator>::chain::<.*>', m_iter_chain),
     (r'<.* as Iterator>::enumerate', m_iter_enumerate),
